@@ -13,7 +13,7 @@ NOT_APPLICABLE = {
     'C18': 'privacy is a property of rendered text built inline in render functions from formatted strings; no contract on those functions is expressible with the installed verifiers.',
     'C20': 'schedule property over threads sharing parking_lot::RwLock<State>: Kani has no thread support and Verus reasons about locks only through its own vstd::rwlock permission types, which the real code does not use (rewriting onto them would be proving a model).',
 }
-for _p in ('C01','C02','C05','C10','C11','C15','C16','C19'):
+for _p in ('C02','C11','C15','C16'):
     NOT_APPLICABLE[_p] = 'check under construction in this session (see DESIGN.md section 3 for the planned contracts); not claimed until its obligations are discharged by bin/check'
 
 import re as _re
@@ -87,6 +87,43 @@ PROPS = {
         'kani': {'quick': ['k_split_contract', 'k_extobj_iter_contract', 'k_mpls_iter_contract', 'k_ExtensionsPacket_nopanic', 'k_MplsLabelStackPacket_nopanic']},
         'assumptions': [],
         'explanation': 'ICMP extension parsing',
+    },
+    'C01': {
+        'level': 'proof',
+        'technique': 'Verus contracts on every link of the chain next_probe -> do_send -> recv_response/complete_probe -> publish_trace -> StateUpdater::apply/update_for_probe; composition across loop iterations argued in DESIGN.md',
+        'level_text': 'Each link between the network and the published statistics is proved: a probe handed to the network is recorded Awaited with its ttl/sequence/round/send time (whole-buffer frame); only a genuine response completes exactly that slot with responder address, receive time and ICMP type copied unchanged; transient send failures mark the slot Failed; publish_trace publishes exactly the issued prefix of the buffer; update_for_probe adds exactly one sent (plus one received with rtt = receive - send for Complete, plus one failed for Failed, nothing for NotSent/Skipped) to exactly the hop of the probe\'s ttl.',
+        'level_note': 'The composition over the iterations of Strategy::run and over rounds is by the data-structure invariants (TracerState::wf, FlowState::wf) and is not mechanised as one theorem. Real sockets, kernel, SystemTime and that Channel::recv_probe hands over every delivered packet are outside. Wire -> Response is C02/C04/C11.',
+        'units': ['core_strategy', 'core_state'],
+        'assumptions': ['floating-point statistics are abstracted (T6)'],
+        'explanation': 'probe outcome bookkeeping',
+    },
+    'C05': {
+        'level': 'proof',
+        'technique': 'Verus per-hop invariant (hop_wf) preserved by update_for_probe/apply; exact integer aggregation clauses; float statistics abstracted',
+        'level_text': 'For every round and every probe: received+failed <= sent, forward+backward loss <= sent-received-failed, address counts sum to received, best <= worst, last/best/worst present iff something was received, sample history newest-first and never longer than max_samples; sent/received/failed counters, last (rtt = receive - send), best = min, worst = max and the last-probe details are updated exactly as a recomputation from the round would. Holds after any history because it is an inductive invariant of FlowState.',
+        'level_note': 'NOT covered (not applicable within C05): avg, stddev, jitter (javg, jinta, jmax), loss percentages - floating point recurrences, abstracted by havoc shims (T6). is_forward_loss (iterator adapters) is trusted in Verus; forward/backward loss counters are only bounded (at most one of them +1 per awaited probe). IndexMap is modelled by ghost counts (addrs_incr shim).',
+        'units': ['core_state'],
+        'assumptions': ['fewer than 2^48 rounds (usize counters do not overflow)', 'Duration addition does not overflow'],
+        'not_applicable_parts': ['floating-point statistics: avg_ms, stddev_ms, javg, jinta, jmax, loss_pct'],
+        'explanation': 'per-hop statistics',
+    },
+    'C10': {
+        'level': 'proof',
+        'technique': 'Verus inductive invariant on FlowState (hop table) under the round contract round_wf, which is proved as the postcondition of Strategy::publish_trace from the TracerState invariant',
+        'level_text': 'publish_trace reports largest_ttl = target distance if known, 0 if nothing answered, else min(last sent ttl, farthest answer + 1), and the published round satisfies round_wf (ttls in 1..=254, a probe at or below the reported length exists); under round_wf, apply preserves the hop-table invariant (254 hops, lowest-1 <= highest <= 254, highest_for_round <= highest, each probed hop carries ttl = index+1), so hops() returns exactly hops[lowest-1..highest] (or empty) and target_hop/is_target/is_in_round never index out of range - including first-ttl > 1 and before any response.',
+        'level_note': 'Synthetic rounds that violate round_wf are outside the contract (stated as the precondition). State (HashMap<FlowId, FlowState>) accessors index by flow id: covered under C15 / not here.',
+        'units': ['core_strategy', 'core_state'],
+        'assumptions': [],
+        'explanation': 'hop table',
+    },
+    'C19': {
+        'level': 'proof',
+        'technique': 'Verus contracts on nat_status, update_for_probe (checksum carry-forward), StateUpdater::new, ProtocolStrategyResponse::from',
+        'level_text': 'nat_status returns Detected iff the quoted checksum differs from the previous responding hop\'s (or from the expected checksum for the first responding hop) and never NotApplicable; update_for_probe stores the result and carries the actual checksum forward exactly for Complete probes that carry both checksums, leaves last_nat_status and the carry untouched otherwise; the carry starts empty each round; checksums are present exactly for Dublin over IPv4/UDP, so every other configuration stays NotApplicable.',
+        'level_note': 'That the expected checksum equals the checksum of the probe as sent (calc_udp_checksum vs dispatch) is part of C11 (Kani harness on the real builders).',
+        'units': ['core_state', 'core_strategy'],
+        'assumptions': [],
+        'explanation': 'NAT detection',
     },
     'C03': {
         'level': 'proof',
